@@ -519,6 +519,17 @@ class Engine:
             raise EngineError("reference to unknown global @" + name)
         if g.external:
             h = self.externs.get("@" + name)
+            if h is None and name.startswith(("_ZTT", "_ZTV")) and not name.startswith("_ZTVN10__cxxabiv"):
+                # libstdc++ VTT / vtable of a stream class: synthetic zero-filled table; VTT slots point into a
+                # synthetic vtable (vbase offsets read as 0).  Stream objects are modelled by vf/externs.py.
+                size = ir.sizeof(g.ty) if g.ty.kind != "struct" or not g.ty.opaque else 256
+                o = self.new_obj(st, max(size, 8), name="@" + name, zero=True, kind="global")
+                st.globals[name] = o.id
+                if name.startswith("_ZTT"):
+                    vt = self.new_obj(st, 256, name="vtable(model)", zero=True, kind="global")
+                    for i in range(0, size, 8):
+                        o.cells[i] = (Ptr(vt.id, 64), 8)
+                return Ptr(o.id, 0)
             if h is None:
                 # opaque external data object (e.g. std::cout, typeinfo, vtable): zero-sized named object
                 o = self.new_obj(st, None, name="@" + name, zero=False, kind="extern")
@@ -589,6 +600,8 @@ class Engine:
             return list(c[1])
         if k == "cexpr":
             return self.cexpr(st, c)
+        if k == "meta":
+            return None
         raise EngineError("constant " + k)
 
     def undef_of(self, ty):
@@ -792,6 +805,8 @@ class Engine:
                 raise EngineError("instruction budget exceeded on one path (%d) in %s" % (self.max_steps, fr.func.name))
             try:
                 r = self.step(st, fr, ins)
+            except MemError as me:
+                raise MemError("%s [in %s: %s]" % (me, P_dem(fr.func.name), ins.text[:100]))
             except SymOffset as so:
                 r = self.fork_on_values(st, so.term, "offset")
                 if r is None:
@@ -1181,6 +1196,9 @@ class Engine:
             an = 0 if a.obj == 0 else 1
             bn = 0 if b.obj == 0 else 1
             return int_cmp(pred, an, bn, 64)
+        # distinct live objects: ordered by allocation number (a consistent choice of disjoint addresses)
+        if isinstance(a.obj, int) and isinstance(b.obj, int):
+            return int_cmp(pred, a.obj, b.obj, 64)
         raise EngineError("ordering comparison of pointers into different objects")
 
     # ------------------------------------------------------------ calls
@@ -1327,6 +1345,14 @@ class Engine:
             first = False
         st.notes.append("uncaught exception " + str(ti))
         raise PathEnd("uncaught-exception:" + str(ti))
+
+
+def P_dem(n):
+    import subprocess
+    try:
+        return subprocess.run(["c++filt", n], stdout=subprocess.PIPE, text=True).stdout.strip()[:90]
+    except Exception:
+        return n
 
 
 class Budget(Exception):
